@@ -36,7 +36,13 @@ type Solver struct {
 }
 
 // Start launches bin ("z3", "z3-new" or "cvc5") in incremental mode.
-func Start(bin string, timeoutMs int) (*Solver, error) {
+func Start(bin string, timeoutMs int) (*Solver, error) { return StartLogic(bin, timeoutMs, "") }
+
+// StartLogic is Start with an explicit (set-logic ...).  With QF_BV z3 decides bit-vector-only
+// problems by bit-blasting in its SAT core, which for the model-checking queries is two orders of
+// magnitude faster than the default combination; an "(error" answer to any later command still
+// makes the affected query inconclusive.
+func StartLogic(bin string, timeoutMs int, logic string) (*Solver, error) {
 	var args []string
 	switch {
 	case strings.Contains(bin, "cvc5"):
@@ -62,7 +68,12 @@ func Start(bin string, timeoutMs int) (*Solver, error) {
 		f, _ := os.Create(fmt.Sprintf("%s.%d", tf, cmd.Process.Pid))
 		s.Trace = f
 	}
-	if strings.Contains(bin, "cvc5") {
+	if logic == "" && !strings.Contains(bin, "cvc5") {
+		logic = os.Getenv("VF_SMT_LOGIC")
+	}
+	if logic != "" {
+		s.Send("(set-logic " + logic + ")\n")
+	} else if strings.Contains(bin, "cvc5") {
 		s.Send("(set-logic ALL)\n")
 	}
 	s.Send("(set-option :produce-models true)\n")
